@@ -392,6 +392,9 @@ func (c *otApplyContext) initIters() {
 
 func (c *otApplyContext) setLookupMask(mask GlyphMask) {
 	c.lookupMask = mask
+	// the base cached by the mark attachment lookups is only valid within one lookup
+	c.lastBase = -1
+	c.lastBaseUntil = 0
 	c.initIters()
 }
 
